@@ -114,14 +114,21 @@ class LA:
 THOROUGH = dict(base_points=4, max_terms=30000)   # thorough tier: 4 base points, k=2, up to 6 free-coordinate choices per base point
 
 
-def tier_caps(insts, tier):
-    """per-instance driver settings for the thorough tier (keeps the whole check inside its 30 min budget)"""
+def tier_caps(insts, tier, big_base_points=None):
+    """per-instance driver settings for the thorough tier (keeps the whole check inside its 30 min budget);
+    big_base_points: base points for the 5-body trees (names '5:...') of checks whose obligations carry forward dynamics"""
     if tier == "thorough":
         for i in insts:
             for k, v in THOROUGH.items():
                 i.setdefault(k, v)
+            if big_base_points and i["name"].startswith("5:"):
+                i["base_points"] = big_base_points
     return insts
 
 
-def cap_sets(fs, tier, n=6):
-    return fs[:n] if tier == "thorough" else fs
+def cap_sets(fs, tier, n=6, inst=None, big_n=None):
+    if tier != "thorough":
+        return fs
+    if big_n and inst is not None and inst["name"].startswith("5:"):
+        return fs[:big_n]
+    return fs[:n]
